@@ -144,13 +144,23 @@ class Check(CheckBase):
         return unmet[:6]
 
     # -------------------------------------------------------------------------------------------
-    def _chunks(self, engine, mode, mn, mx, pieces, key, poison=None, adapter=None):
+    def _chunks(self, engine, mode, mn, mx, pieces, key, poison=None, adapter=None, reuse=False):
         br = self.asan if engine == 'asan' else self.plain
         br.mode = mode
         if poison is not None:
             br.poison = poison
         self.mod._gclmulchunker = self.cls[engine]
         ch = adapter if adapter is not None else self.adapters.gclmulchunker(min_length=mn, max_length=mx)
+        if reuse:
+            # the producer hands over every piece in ONE reused block (readinto-style): a piece is only valid until the
+            # next one is requested
+            block = bytearray(max([len(p) for p in pieces] + [1]))
+
+            def producer():
+                for p in pieces:
+                    block[:len(p)] = p
+                    yield memoryview(block)[:len(p)]
+            return [bytes(c) for c in ch(producer(), params=key)]
         return [bytes(c) for c in ch(iter(pieces), params=key)]
 
     def _disturb(self, adapter, r, mx):
@@ -244,6 +254,15 @@ class Check(CheckBase):
                                                f'{"/" + poison.hex() if poison else ""}', 'mechanism': None,
                                        'witness': dict(ident, a=lens[:40], b=[len(c) for c in other][:40])})
                     break
+            # the same pieces handed over in a reused block
+            if li % 3 == 1:
+                reused = self._chunks('asan', 'exact', mn, mx, pieces, key, reuse=True)
+                counters['reused_block_streams'] = counters.get('reused_block_streams', 0) + 1
+                if reused != ref:
+                    violations.append({'what': 'chunks differ when the producer hands the pieces over in a reused block '
+                                               '(a piece was read after the next one had been requested)', 'mechanism': None,
+                                       'witness': dict(ident, a=lens[:40], b=[len(c) for c in reused][:40],
+                                                       lossless=b''.join(reused) == data)})
             # earlier calls must not matter: one long-lived adapter object (as Repository keeps one), left in
             # every state an earlier call can leave it in, must give what a fresh object gives
             if li % 2 == 0:
